@@ -120,7 +120,7 @@ struct Sub {
     unsubscribed: bool,
 }
 
-/// args {cap, ops: [["sub",c] | ["sub_reject",c] | ["clone",s] | ["dropone",s] | ["finish",s] | ["query",s] | ["unsub",c,s] | ["unsub_unknown",c] | ["close",c]]}
+/// args {cap, ops: [["sub",c] | ["sub_reject",c] | ["clone",s] | ["dropone",s] | ["finish",s] | ["query",s] | ["unsub",c,s] | ["unsub_unknown",c] | ["close",c] | ["reopen",c]]}
 pub fn history(a: &Value) -> Value {
     let cap = a["cap"].as_u64().unwrap_or(2) as u32;
     let ops: Vec<Value> = a["ops"].as_array().cloned().unwrap_or_default();
@@ -264,6 +264,18 @@ pub fn history(a: &Value) -> Value {
                     let r = conns[c].call("unsub", json!([987654321u64])).await.unwrap_or(Value::Null);
                     if r["result"] != json!(false) {
                         why.push(format!("step {step}: unsubscribe of an unknown id answered {r}"));
+                    }
+                }
+                "reopen" => {
+                    // a connection accepted after an earlier one has gone: it is a connection of its own, with its own id
+                    let c = x % 2;
+                    if !conns[c].open {
+                        conns[c] = connect(addr).await;
+                        for s in subs.iter_mut().filter(|s| s.conn == c) {
+                            s.unsubscribed = true;
+                            s.sinks = 0;
+                        }
+                        trace.push(json!(["reopen", c]));
                     }
                 }
                 "close" => {
